@@ -53,6 +53,11 @@ def rbytes(rng, n):
 # ----------------------------------------------------------------------------- the two real paths
 
 class Direct:
+    # the abstract view of the state is computed exactly as for the HTTP stack
+    abstract = H.Stack.abstract
+    open_uploads = H.Stack.open_uploads
+    note_allocated = H.Stack.note_allocated
+
     def __init__(self, name, clock):
         H._prepare()
         from allmydata.storage.server import StorageServer
@@ -61,6 +66,7 @@ class Direct:
         os.makedirs(self.dir)
         self.ss = StorageServer(self.dir, b"\x00" * 20, clock=clock)
         self.writers = {}
+        self.owner = {}
 
     def close(self):
         for bw in list(self.ss._bucket_writers.values()):
@@ -80,6 +86,7 @@ class Direct:
             have, ws = self.ss.allocate_buckets(si, bytes.fromhex(op[5]), bytes.fromhex(op[6]), set(op[2]), op[3])
             for n, bw in ws.items():
                 self.writers[(op[1], n)] = bw
+            self.note_allocated(op[1], list(ws), bytes.fromhex(op[4]))
             return "created:%s/%s" % (H.nats(have), H.nats(ws))
         if k == "w":
             bw = self.writers.get((op[1], op[2]))
@@ -402,14 +409,17 @@ def run_history(ctx, ops):
         recorder.append((si, tuple(secrets), tw, rv))
         return orig(si, secrets, tw, rv, *a, **kw)
     stack.ss.slot_testv_and_readv_and_writev = recording
-    outs = []
+    outs, douts = [], []
     diverged = False
     try:
         for i, op in enumerate(ops):
             for v in ([op[4], op[5], op[6]] if op[0] == "c" else [op[2], op[3]] if op[0] == "e" else [op[3], op[4]] if op[0] == "q" else []):
                 H.KNOWN_SECRETS.add(bytes.fromhex(v))
             before = stack.abstract()
-            d = direct.run(op) if not diverged else None
+            d = direct.run(op)
+            if op[0] == "w" and op[5] == "" and d == "nowriter":
+                d = "emptychunk"          # an empty chunk is refused on both paths, whether or not an upload exists
+            douts.append(d)
             h = run_http(stack, op, recorder)
             if op[0] == "c" and h.startswith("created:"):
                 alloc = h.split(":")[1].split("/")[1]
@@ -450,11 +460,13 @@ def run_history(ctx, ops):
                               "share-files-differ")
             ctx.count("files-compared", len(fd))
         final = stack.abstract()
+        dfinal = direct.abstract()
     finally:
         stack.ss.slot_testv_and_readv_and_writev = orig
         stack.close()
         direct.close()
-    return " ".join(outs) + " || " + final, "hist " + " ".join(op_token(op) for op in ops)
+    return (" ".join(outs) + " || " + final, "hist " + " ".join(op_token(op) for op in ops),
+            " ".join(douts) + " || " + dfinal)
 
 
 def run(ctx):
@@ -469,14 +481,27 @@ def run(ctx):
         for i in range(ctx.budget(220, 4000)):
             # zero-length reads / empty chunks are a known divergence: give them their own share of histories
             hists.append(gen_history(ctx.rng, ctx.rng.choice([10, 25, 45]), zero_ok=(i % 5 == 0)))
-    impls, lines, cases = [], [], []
+    impls, lines, cases, dimpls = [], [], [], []
     for ops in hists:
-        out, line = run_history(ctx, ops)
+        out, line, dout = run_history(ctx, ops)
         impls.append(out)
         lines.append(line)
+        dimpls.append(dout)
         cases.append({"kind": "hist", "ops": ops})
     model = ctx.model(lines)
     ctx.compare("client-level history: StorageClient*->HTTPServer (real) vs driver (every result, final state)", cases, impls, model)
+    # the HTTP path behind the gate (`handledStep`, the object of the theorem http_handlers_eq_direct) prints the same
+    model = ctx.model(["h" + l for l in lines])
+    ctx.compare("client-level history: StorageClient*->HTTPServer (real) vs handledStep", cases, impls, model)
+    # the direct path: real StorageServer calls vs `directStep` (results mapped onto the direct vocabulary)
+    model = ctx.model(["d" + l for l in lines])
+    if model is not None:
+        mapped = []
+        for ops, m in zip(hists, model):
+            res, st = m.split(" || ")
+            mapped.append(" ".join(canon_http(op, r) for op, r in zip(ops, res.split(" "))) + " || " + st)
+        ctx.compare("client-level history: direct StorageServer calls (real) vs directStep (every result, final state)",
+                    cases, dimpls, mapped)
     # function level: the read path on one share, all offsets/lengths around the end
     rl, ri, rc = [], [], []
     if not ctx.replay:
